@@ -294,3 +294,441 @@ Section Restrict.
     - left. split; [discriminate|]. cbn [hdopt hd]. rewrite !app_assoc. apply last_app_single.
   Qed.
 End Restrict.
+
+(* ---------------------------------------------------------------------------------------------- *)
+(* the instance MinFlowDecomp builds for a graph with an ignore list (EndToEnd2.e2e_inst is the case ign = []) *)
+Definition sg_inst (V : list node) (E : list edge) (s t : node) (f : edge -> Z) (ign : list edge) (k : nat) : kfd_inst :=
+  {| f_base := {| p_graph := st_of V E s t; p_k := k; p_allow_empty := false; p_cons := []; p_cov := 1%Q; p_len := None |};
+     f_flow := map (fun e => (e, inject_Z (f e))) E; f_ignore := synth V E s t ++ ign;
+     f_wmax := inject_Z (fmax E f); f_int := true |}.
+
+Lemma sumq_filter_zero {A} (g : A -> Q) (c : A -> bool) (l : list A) :
+  (forall x, In x l -> c x = false -> (g x == 0)%Q) -> (sumq g (filter c l) == sumq g l)%Q.
+Proof.
+  induction l as [|x l IH]; intros H; [reflexivity|]. cbn [filter]. destruct (c x) eqn:C; cbn [sumq].
+  - rewrite IH; [reflexivity|]. intros y Hy. apply H. right. exact Hy.
+  - rewrite IH, (H x (or_introl eq_refl) C); [lra|]. intros y Hy. apply H. right. exact Hy.
+Qed.
+
+Lemma sumq_ge_term_nn {A} (g : A -> Q) l x : (forall y, In y l -> (0 <= g y)%Q) -> In x l -> (g x <= sumq g l)%Q.
+Proof.
+  induction l as [|y l IH]; intros H Hin; [destruct Hin|]. cbn [sumq].
+  assert (N : (0 <= sumq g l)%Q).
+  { clear IH Hin. induction l as [|z l IHl]; cbn [sumq]; [lra|]. pose proof (H z (or_intror (or_introl eq_refl))).
+    assert (0 <= sumq g l)%Q by (apply IHl; intros u [->|Hu]; apply H; [left; reflexivity|right; right; exact Hu]). lra. }
+  destruct Hin as [->|Hin]; [lra|]. pose proof (H y (or_introl eq_refl)).
+  assert (g x <= sumq g l)%Q by (apply IH; [intros z Hz; apply H; right; exact Hz|exact Hin]). lra.
+Qed.
+
+Lemma in_pairs_st (s t : node) (r : list node) (e : edge) : fst e <> s -> snd e <> t -> r <> [] ->
+  (In e (pairs (s :: r ++ [t])) <-> In e (pairs r)).
+Proof.
+  intros Hs Ht Hr. destruct r as [|v0 r]; [congruence|]. rewrite pairs_st. cbn [In]. rewrite in_app_iff. cbn [In]. split.
+  - intros [H|[H|[H|[]]]]; [subst e; cbn in Hs; congruence|exact H|subst e; cbn in Ht; congruence].
+  - intros H. right. left. exact H.
+Qed.
+
+Section SubgraphBound.
+  Variables (V : list node) (E : list edge) (s t : node).
+  Variable f : edge -> Z.
+  Variable ign : list edge.
+  Variables (topo : list node) (left right : nat).
+  Variable k : nat.
+  Variable P : N -> list node.
+  Variable w : N -> Q.
+  Hypothesis Hs : ~ In s V.
+  Hypothesis Ht : ~ In t V.
+  Hypothesis Hst : s <> t.
+  Hypothesis HE : forall e, In e E -> In (fst e) V /\ In (snd e) V.
+  Hypothesis Htopo : forall u v, In (u, v) E -> posn topo u < posn topo v.
+  Hypothesis Hcover : forall v, In v V -> In v topo.
+  Hypothesis Htopo_V : forall v, In v topo -> In v V.
+  Hypothesis HD : decomposition (sg_inst V E s t f ign k) P w.
+
+  Let pos := posn topo.
+  Let W := window_nodes topo left right.
+  Let EH := window_edges W E.
+  Let VH := window_vertices W EH.
+  Definition ign_H : list edge := filter (fun e => memn (fst e) VH && memn (snd e) VH) ign.
+
+  Definition inner (i : N) : list node := removelast (tl (P i)).
+  Definition Qp (i : N) : list node := restrict topo left right (inner i).
+  Definition survives (i : N) : bool := negb (match partM topo left right (inner i) with [] => true | _ => false end).
+  Definition surv : list N := filter survives (layers k).
+  Definition k' : nat := length surv.
+  Definition idx (j : N) : N := nth (N.to_nat j) surv 0%N.
+  Definition live (i : N) : bool := existsb (fun e => negb (mem_edge e ign)) (pairs (Qp i)).
+  Definition P' (j : N) : list node := s :: Qp (idx j) ++ [t].
+  Definition w' (j : N) : Q := if live (idx j) then w (idx j) else 0%Q.
+
+  Lemma EH_spec e : In e EH <-> In e E /\ (In (fst e) W \/ In (snd e) W).
+  Proof. unfold EH, window_edges, touches. rewrite filter_In, orb_true_iff, !memn_In. tauto. Qed.
+  Lemma VH_ends e : In e EH -> In (fst e) VH /\ In (snd e) VH.
+  Proof. intros He. unfold VH. split; apply window_vertices_In; right; exists e; tauto. Qed.
+  Lemma VH_in_V v : (forall x, In x W -> In x V) -> In v VH -> In v V.
+  Proof.
+    intros HW Hv. unfold VH in Hv. apply window_vertices_In in Hv. destruct Hv as [Hv|(e & He & Hv)]; [apply HW; exact Hv|].
+    apply EH_spec in He. destruct He as [He _]. apply HE in He. destruct Hv as [-> | ->]; tauto.
+  Qed.
+
+  (* shape of the paths of the decomposition *)
+  Lemma P_shape_sg i : In i (layers k) ->
+    P i = s :: inner i ++ [t] /\ inner i <> [] /\ (forall v, In v (inner i) -> In v V) /\ incl (pairs (inner i)) E /\
+    is_start E [] (hd s (inner i)) = true /\ is_end E [] (last (inner i) s) = true /\ NoDup (P i).
+  Proof.
+    intros Hi. destruct HD as (HP & _ & _). destruct (HP i Hi) as (Hh & Hl & ND & Hin). cbn in Hh, Hl, Hin.
+    destruct (strip_st_spec s t (P i) Hst Hh Hl) as (r & Er & _).
+    assert (Ei : inner i = r) by (unfold inner; rewrite Er; cbn [tl]; apply removelast_last).
+    rewrite Ei. rewrite Er in Hin.
+    destruct (aug_route_valid V E [] [] s t Hs Ht Hst HE r Hin) as (A1 & A2 & A3 & A4 & A5).
+    repeat split; assumption.
+  Qed.
+
+  Lemma inner_sorted i : In i (layers k) -> StronglySorted (plt pos) (inner i).
+  Proof.
+    intros Hi. destruct (P_shape_sg i Hi) as (_ & _ & _ & HinE & _). apply chain_sorted. intros a b Hab. apply Htopo. apply HinE. exact Hab.
+  Qed.
+  Lemma inner_topo i : In i (layers k) -> forall v, In v (inner i) -> In v topo.
+  Proof. intros Hi v Hv. apply Hcover. apply (P_shape_sg i Hi). exact Hv. Qed.
+
+  Lemma s_not_inner i : In i (layers k) -> ~ In s (inner i) /\ ~ In t (inner i).
+  Proof. intros Hi. destruct (P_shape_sg i Hi) as (_ & _ & HV & _). split; intros X; apply HV in X; contradiction. Qed.
+
+  (* an edge of H lies on the path iff it lies on the restricted path *)
+  Lemma on_path_iff i e : In i (layers k) -> In e EH -> (In e (pairs (P i)) <-> In e (pairs (Qp i))).
+  Proof.
+    intros Hi He. destruct (P_shape_sg i Hi) as (EP & Hne & HV & HinE & _). apply EH_spec in He. destruct He as [HeE Hw].
+    destruct (HE e HeE) as [H1 H2].
+    assert (Es : fst e <> s) by (intros X; rewrite X in H1; contradiction).
+    assert (Et : snd e <> t) by (intros X; rewrite X in H2; contradiction).
+    rewrite EP, (in_pairs_st s t (inner i) e Es Et Hne). destruct e as [a b]. cbn [fst snd] in Hw. split.
+    - intros H. apply (touch_in_restrict topo left right (inner i) (inner_sorted i Hi) (inner_topo i Hi) a b H Hw).
+    - intros H. apply (restrict_pairs_incl topo left right (inner i) (inner_sorted i Hi)). exact H.
+  Qed.
+
+  Lemma survives_M i : survives i = true -> partM topo left right (inner i) <> [].
+  Proof. unfold survives. destruct (partM topo left right (inner i)); [discriminate|discriminate]. Qed.
+
+  Lemma Qp_pairs_EH i e : In i (layers k) -> survives i = true -> In e (pairs (Qp i)) -> In e EH.
+  Proof.
+    intros Hi Hsv He. destruct (P_shape_sg i Hi) as (_ & _ & _ & HinE & _). destruct e as [a b]. apply EH_spec. split.
+    - apply HinE. apply (restrict_pairs_incl topo left right (inner i) (inner_sorted i Hi)). exact He.
+    - apply (restrict_pairs_touch topo left right (inner i) (inner_topo i Hi) a b (survives_M i Hsv) He).
+  Qed.
+
+  Lemma not_surviving_no_edge i e : In i (layers k) -> survives i = false -> In e EH -> ~ In e (pairs (P i)).
+  Proof.
+    intros Hi Hsv He Hp. apply (on_path_iff i e Hi He) in Hp. unfold Qp, restrict in Hp.
+    unfold survives in Hsv. destruct (partM topo left right (inner i)) as [|m M] eqn:QM; [|discriminate]. cbn [app] in Hp.
+    (* with no window node the restriction has at most two nodes, one before and one after the window: that pair does not touch it *)
+    apply EH_spec in He. destruct He as [_ Hw]. destruct e as [a b]. cbn [fst snd] in Hw.
+    apply in_pairs_nodes in Hp. destruct Hp as [Ha Hb].
+    assert (X : forall v, In v (lastopt (partA topo left (inner i)) ++ hdopt (partB topo left right (inner i))) -> ~ In v W).
+    { intros v Hv. apply in_app_or in Hv. destruct Hv as [Hv|Hv].
+      - apply lastopt_incl in Hv. apply (partA_not_window topo left right (inner i) v Hv).
+      - apply hdopt_incl in Hv. apply (partB_not_window topo left right (inner i) v Hv). }
+    destruct Hw as [Hw|Hw]; [exact (X a Ha Hw)|exact (X b Hb Hw)].
+  Qed.
+
+  Lemma Qp_nonempty i : survives i = true -> Qp i <> [].
+  Proof.
+    intros Hsv. apply survives_M in Hsv. unfold Qp, restrict. destruct (partM topo left right (inner i)); [congruence|].
+    destruct (lastopt (partA topo left (inner i))); discriminate.
+  Qed.
+  Lemma Qp_in_inner i : In i (layers k) -> incl (Qp i) (inner i).
+  Proof. intros Hi. apply (restrict_incl topo left right). Qed.
+
+  (* the first node of a restricted path has no in-edge in H, the last one no out-edge *)
+  Lemma Qp_hd_start i : In i (layers k) -> survives i = true -> indeg0 EH (hd s (Qp i)) = true.
+  Proof.
+    intros Hi Hsv. destruct (P_shape_sg i Hi) as (_ & Hne & HV & HinE & Hstart & _).
+    assert (Hd : hd s (Qp i) = hd 0%N (Qp i)) by (destruct (Qp i) eqn:Q; [exfalso; apply (Qp_nonempty i Hsv); exact Q|reflexivity]).
+    rewrite Hd. unfold indeg0. apply negb_true_iff. destruct (existsb (fun e => (snd e =? hd 0%N (Qp i))%N) EH) eqn:X; [exfalso|reflexivity].
+    apply existsb_exists in X. destruct X as ([x y] & He & Ey). cbn [snd] in Ey. apply N.eqb_eq in Ey. subst y.
+    apply EH_spec in He. destruct He as [HeE Hw]. cbn [fst snd] in Hw.
+    destruct (restrict_hd topo left right (inner i) (inner_sorted i Hi) (survives_M i Hsv)) as [(HA & Eh)|(HA & Eh)]; fold (Qp i) in Eh.
+    - (* the node before the window *)
+      assert (Hq : In (hd 0%N (Qp i)) (partA topo left (inner i))) by (rewrite Eh; apply last_In; exact HA).
+      pose proof (Htopo _ _ HeE) as Hlt. apply partA_spec in Hq. destruct Hq as [_ Hq]. unfold pos in *.
+      destruct Hw as [Hw|Hw]; unfold W in Hw; apply window_nodes_In in Hw; lia.
+    - (* the first node of the path: a source of G *)
+      rewrite Eh in HeE. assert (Hh : hd 0%N (inner i) = hd s (inner i)) by (destruct (inner i); [congruence|reflexivity]).
+      rewrite Hh in HeE. unfold is_start, indeg0 in Hstart. rewrite orb_false_r in Hstart. apply negb_true_iff in Hstart.
+      assert (Y : existsb (fun e => (snd e =? hd s (inner i))%N) E = true) by (apply existsb_exists; exists (x, hd s (inner i)); split; [exact HeE|apply N.eqb_refl]).
+      congruence.
+  Qed.
+
+  Lemma Qp_last_end i : In i (layers k) -> survives i = true -> outdeg0 EH (last (Qp i) s) = true.
+  Proof.
+    intros Hi Hsv. destruct (P_shape_sg i Hi) as (_ & Hne & HV & HinE & _ & Hend & _).
+    assert (Hd : last (Qp i) s = last (Qp i) 0%N) by (apply last_default_irrel; apply (Qp_nonempty i Hsv)).
+    rewrite Hd. unfold outdeg0. apply negb_true_iff. destruct (existsb (fun e => (fst e =? last (Qp i) 0%N)%N) EH) eqn:X; [exfalso|reflexivity].
+    apply existsb_exists in X. destruct X as ([x y] & He & Ey). cbn [fst] in Ey. apply N.eqb_eq in Ey. subst x.
+    apply EH_spec in He. destruct He as [HeE Hw]. cbn [fst snd] in Hw.
+    destruct (restrict_last topo left right (inner i) (inner_sorted i Hi) (survives_M i Hsv)) as [(HB & El)|(HB & El)]; fold (Qp i) in El.
+    - assert (Hq : In (last (Qp i) 0%N) (partB topo left right (inner i))) by (rewrite El; apply hd_In; exact HB).
+      pose proof (Htopo _ _ HeE) as Hlt. apply partB_spec in Hq. destruct Hq as (_ & Hq & _). unfold pos in *.
+      destruct Hw as [Hw|Hw]; unfold W in Hw; apply window_nodes_In in Hw; lia.
+    - rewrite El in HeE. assert (Hh : last (inner i) 0%N = last (inner i) s) by (apply last_default_irrel; exact Hne).
+      rewrite Hh in HeE. unfold is_end, outdeg0 in Hend. rewrite orb_false_r in Hend. apply negb_true_iff in Hend.
+      assert (Y : existsb (fun e => (fst e =? last (inner i) s)%N) E = true) by (apply existsb_exists; exists (last (inner i) s, y); split; [exact HeE|apply N.eqb_refl]).
+      congruence.
+  Qed.
+
+  Lemma W_in_V x : In x W -> In x V.
+  Proof. intros H. unfold W in H. apply window_nodes_In in H. apply Htopo_V. tauto. Qed.
+  Lemma s_not_VH : ~ In s VH. Proof. intros H. apply (VH_in_V s W_in_V) in H. contradiction. Qed.
+  Lemma t_not_VH : ~ In t VH. Proof. intros H. apply (VH_in_V t W_in_V) in H. contradiction. Qed.
+
+  Lemma filter_len_le' {A} (c : A -> bool) (l : list A) : length (filter c l) <= length l.
+  Proof. induction l as [|x l IH]; [cbn; lia|]. cbn [filter]. destruct (c x); cbn [length]; lia. Qed.
+  Lemma layers_len n : length (layers n) = n.
+  Proof. unfold layers. rewrite map_length, seq_length. reflexivity. Qed.
+
+  Lemma k'_le_k : k' <= k.
+  Proof. unfold k', surv. etransitivity; [apply filter_len_le'|]. rewrite layers_len. lia. Qed.
+
+  Lemma idx_surv j : In j (layers k') -> In (idx j) (layers k) /\ survives (idx j) = true.
+  Proof.
+    intros Hj. apply in_layers in Hj. destruct Hj as (n & Hn & ->). unfold idx. rewrite Nat2N.id.
+    assert (X : In (nth n surv 0%N) surv) by (apply nth_In; exact Hn). unfold surv in X at 2. apply filter_In in X. exact X.
+  Qed.
+
+  (* sums over the surviving layers *)
+  Lemma sum_over_survivors (g : N -> Q) : (forall i, In i (layers k) -> survives i = false -> (g i == 0)%Q) ->
+    (sumq (fun j => g (idx j)) (layers k') == sumq g (layers k))%Q.
+  Proof.
+    intros H0. unfold layers at 1. rewrite sumq_map.
+    assert (E1 : (sumq (fun n => g (idx (N.of_nat n))) (seq 0 k') == sumq (fun n => g (nth n surv 0%N)) (seq 0 (length surv)))%Q).
+    { unfold k'. apply sumq_ext. intros n _. unfold idx. rewrite Nat2N.id. reflexivity. }
+    rewrite E1, (sumq_nth_seq g surv 0%N). unfold surv. apply sumq_filter_zero. exact H0.
+  Qed.
+
+  Lemma live_edge i : In i (layers k) -> survives i = true -> live i = true ->
+    exists e, In e (pairs (Qp i)) /\ In e EH /\ mem_edge e ign = false /\ In e (pairs (P i)).
+  Proof.
+    intros Hi Hsv Hl. unfold live in Hl. apply existsb_exists in Hl. destruct Hl as (e & He & Hn). apply negb_true_iff in Hn.
+    pose proof (Qp_pairs_EH i e Hi Hsv He) as HeH. exists e. repeat split; try assumption. apply (on_path_iff i e Hi HeH). exact He.
+  Qed.
+
+  Lemma not_synth e : In e E -> mem_edge e (synth V E s t) = false.
+  Proof.
+    intros He. destruct (mem_edge e (synth V E s t)) eqn:M; [exfalso|reflexivity]. apply PathEncComplete.mem_edge_In in M.
+    destruct (HE e He) as [H1 H2]. unfold synth, aug_source_edges, aug_sink_edges in M. apply in_app_or in M.
+    destruct M as [M|M]; apply in_map_iff in M; destruct M as (u & Eq & _); subst e; cbn [fst snd] in *; contradiction.
+  Qed.
+
+  Lemma ign_H_spec e : In e EH -> mem_edge e ign_H = mem_edge e ign.
+  Proof.
+    intros He. destruct (VH_ends e He) as [H1 H2]. apply eq_true_iff_eq. rewrite !PathEncComplete.mem_edge_In. unfold ign_H.
+    rewrite filter_In, andb_true_iff, !memn_In. tauto.
+  Qed.
+
+  Lemma w_nonneg i : In i (layers k) -> (0 <= w i)%Q.
+  Proof. intros Hi. destruct HD as (_ & Hw & _). destruct (Hw i Hi) as [[A _] _]. exact A. Qed.
+
+  (* the flow equation of G on a non-ignored edge of E *)
+  Lemma G_flow e : In e E -> mem_edge e ign = false ->
+    (sumq (fun i => w i * PathEncComplete.indq (mem_edge e (pairs (P i)))) (layers k) == inject_Z (f e))%Q.
+  Proof.
+    intros He Hig. destruct HD as (_ & _ & Hf). cbn in Hf. rewrite <- (lookup_flow E f e He). apply Hf.
+    - unfold aug_edges. apply in_or_app. left. exact He.
+    - change (mem_edge e (synth V E s t ++ ign) = false). destruct (mem_edge e (synth V E s t ++ ign)) eqn:M; [exfalso|reflexivity].
+      apply PathEncComplete.mem_edge_In in M. apply in_app_or in M. destruct M as [M|M].
+      + apply PathEncComplete.mem_edge_In in M. rewrite (not_synth e He) in M. discriminate.
+      + apply PathEncComplete.mem_edge_In in M. congruence.
+  Qed.
+
+  (* C05: the decomposition of G restricts to a decomposition of the window subgraph into at most as many paths *)
+  Theorem subgraph_decomposition : decomposition (sg_inst VH EH s t f ign_H k') P' w' /\ k' <= k.
+  Proof.
+    split; [|exact k'_le_k]. unfold decomposition. cbn [p_graph f_base sg_inst p_k g_src g_snk g_edges st_of f_wmax f_int f_ignore f_flow].
+    assert (HEH : forall e, In e EH -> In (fst e) VH /\ In (snd e) VH) by exact VH_ends.
+    split; [|split].
+    - (* the restricted paths are source-to-sink paths of H *)
+      intros j Hj. destruct (idx_surv j Hj) as [Hi Hsv]. set (i := idx j) in *. unfold P'. fold i.
+      pose proof (Qp_nonempty i Hsv) as Hne. destruct (s_not_inner i Hi) as [Hsn Htn].
+      split; [reflexivity|]. split; [change (s :: Qp i ++ [t]) with ((s :: Qp i) ++ [t]); apply last_snoc|]. split.
+      + constructor.
+        * intros X. apply in_app_or in X. destruct X as [X|[X|[]]]; [apply Hsn; apply (Qp_in_inner i Hi); exact X|congruence].
+        * apply NoDup_app_intro || idtac.
+          assert (NDQ : NoDup (Qp i)) by (apply (restrict_nodup topo left right (inner i) (inner_sorted i Hi))).
+          clear -NDQ Htn Hi. assert (Ht' : ~ In t (Qp i)) by (intros X; apply Htn; apply (Qp_in_inner i Hi); exact X).
+          induction (Qp i) as [|x l IH]; cbn [app]; [constructor; [intros []|constructor]|].
+          inversion NDQ as [|? ? Hx ND']; subst. constructor.
+          -- intros X. apply in_app_or in X. destruct X as [X|[X|[]]]; [contradiction|]. apply Ht'. left. symmetry. exact X.
+          -- apply IH; [exact ND'|]. intros X. apply Ht'. right. exact X.
+      + destruct (Qp i) as [|q0 Q] eqn:EQ; [congruence|]. rewrite pairs_st. intros e He. destruct He as [<-|He].
+        * apply (aug_spec_source VH EH [] [] s t s_not_VH Hst HEH q0). split.
+          -- destruct (in_dec N.eq_dec q0 VH) as [X|X]; [exact X|exfalso].
+             (* q0 is an endpoint of an edge of the restricted path or a window node *)
+             pose proof (survives_M i Hsv) as HM.
+             destruct Q as [|q1 Q'].
+             ++ (* single node: it is the window node *)
+                assert (Hq : In q0 (partM topo left right (inner i))).
+                { unfold Qp, restrict in EQ. destruct (partM topo left right (inner i)) as [|m M] eqn:QM; [congruence|].
+                  destruct (lastopt (partA topo left (inner i))) as [|a0 A0]; cbn [app] in EQ.
+                  - injection EQ as <- _. left. reflexivity.
+                  - injection EQ as _ EQ. apply app_eq_nil in EQ. destruct EQ as [_ EQ]. discriminate EQ. }
+                apply (partM_window topo left right (inner i) (inner_topo i Hi)) in Hq. apply X. unfold VH. apply window_vertices_In. left. tauto.
+             ++ assert (He : In (q0, q1) (pairs (Qp i))) by (rewrite EQ, pairs_cons2; left; reflexivity).
+                apply (Qp_pairs_EH i _ Hi Hsv) in He. apply X. apply (VH_ends _ He).
+          -- unfold is_start. rewrite orb_false_r. pose proof (Qp_hd_start i Hi Hsv) as Hh. rewrite EQ in Hh. exact Hh.
+        * apply in_app_or in He. destruct He as [He|[<-|[]]].
+          -- unfold aug_edges. apply in_or_app. left. apply (Qp_pairs_EH i e Hi Hsv). rewrite EQ. exact He.
+          -- apply (aug_spec_sink VH EH [] [] s t t_not_VH Hst HEH (last (q0 :: Q) q0)). split.
+             ++ destruct (in_dec N.eq_dec (last (q0 :: Q) q0) VH) as [X|X]; [exact X|exfalso].
+                destruct Q as [|q1 Q'].
+                ** cbn [last] in X.
+                   assert (Hq : In q0 (partM topo left right (inner i))).
+                   { pose proof (survives_M i Hsv) as HM. unfold Qp, restrict in EQ. destruct (partM topo left right (inner i)) as [|m M] eqn:QM; [congruence|].
+                     destruct (lastopt (partA topo left (inner i))) as [|a0 A0]; cbn [app] in EQ.
+                     - injection EQ as <- _. left. reflexivity.
+                     - injection EQ as _ EQ. apply app_eq_nil in EQ. destruct EQ as [_ EQ]. discriminate EQ. }
+                   apply (partM_window topo left right (inner i) (inner_topo i Hi)) in Hq. apply X. unfold VH. apply window_vertices_In. left. tauto.
+                ** assert (Hl : exists z, In (z, last (q0 :: q1 :: Q') q0) (pairs (Qp i))).
+                   { rewrite EQ. clear. revert q0 q1. induction Q' as [|q2 Q'' IH]; intros q0 q1.
+                     - exists q0. cbn. left. reflexivity.
+                     - destruct (IH q1 q2) as (z & Hz). exists z. rewrite pairs_cons2. right.
+                       change (last (q0 :: q1 :: q2 :: Q'') q0) with (last (q1 :: q2 :: Q'') q0).
+                       rewrite (last_default_irrel (q1 :: q2 :: Q'') q0 q1) by discriminate. exact Hz. }
+                   destruct Hl as (z & Hz). apply (Qp_pairs_EH i _ Hi Hsv) in Hz. apply X. apply (VH_ends _ Hz).
+             ++ unfold is_end. rewrite orb_false_r. pose proof (Qp_last_end i Hi Hsv) as Hh. rewrite EQ in Hh.
+                rewrite (last_default_irrel (q0 :: Q) q0 s) by discriminate. exact Hh.
+    - (* weights *)
+      intros j Hj. destruct (idx_surv j Hj) as [Hi Hsv]. unfold w'. set (i := idx j) in *.
+      destruct HD as (_ & Hw & _). destruct (Hw i Hi) as [[W0 _] Wint]. cbn in Wint.
+      destruct (live i) eqn:L.
+      + split; [|exact Wint]. split; [exact W0|].
+        destruct (live_edge i Hi Hsv L) as (e & _ & HeH & Hig & HeP).
+        pose proof (proj1 (EH_spec e) HeH) as [HeE _].
+        pose proof (G_flow e HeE Hig) as Fl.
+        pose proof (sumq_ge_term_nn (fun i => (w i * PathEncComplete.indq (mem_edge e (pairs (P i))))%Q) (layers k) i) as T. cbv beta in T.
+        assert (M1 : mem_edge e (pairs (P i)) = true) by (apply PathEncComplete.mem_edge_In; exact HeP).
+        rewrite M1 in T. cbn [PathEncComplete.indq] in T.
+        assert (T' : (w i * 1 <= sumq (fun i0 => w i0 * PathEncComplete.indq (mem_edge e (pairs (P i0)))) (layers k))%Q).
+        { apply T; [|exact Hi]. intros y Hy. pose proof (w_nonneg y Hy). destruct (mem_edge e (pairs (P y))); cbn [PathEncComplete.indq]; lra. }
+        rewrite Fl in T'. pose proof (fmax_ge EH f e HeH) as FM.
+        assert (inject_Z (f e) <= inject_Z (fmax EH f))%Q by (rewrite <- Zle_Qle; exact FM). lra.
+      + split; [|intros _; exists 0%Z; reflexivity]. split; [lra|].
+        change 0%Q with (inject_Z 0). rewrite <- Zle_Qle. unfold fmax. clear. induction EH as [|x l IH]; cbn [fold_right]; lia.
+    - (* the flow equation on the non-ignored edges of H *)
+      intros e He Hig.
+      assert (HeH : In e EH).
+      { apply (aug_in VH EH [] [] s t) in He. destruct He as [He|[(u & Hu & X & ->)|(u & Hu & X & ->)]]; [exact He| |]; exfalso.
+        - assert (M : mem_edge (s, u) (synth VH EH s t ++ ign_H) = true).
+          { apply PathEncComplete.mem_edge_In. apply in_or_app. left. unfold synth, aug_source_edges. apply in_or_app. left.
+            apply (in_map (fun u => (s, u))). apply filter_In. auto. }
+          congruence.
+        - assert (M : mem_edge (u, t) (synth VH EH s t ++ ign_H) = true).
+          { apply PathEncComplete.mem_edge_In. apply in_or_app. left. unfold synth, aug_sink_edges. apply in_or_app. right.
+            apply (in_map (fun u => (u, t))). apply filter_In. auto. }
+          congruence. }
+      pose proof (proj1 (EH_spec e) HeH) as [HeE _].
+      assert (Hig' : mem_edge e ign = false).
+      { rewrite <- (ign_H_spec e HeH). destruct (mem_edge e ign_H) eqn:M; [exfalso|reflexivity].
+        assert (M' : mem_edge e (synth VH EH s t ++ ign_H) = true).
+        { apply PathEncComplete.mem_edge_In. apply in_or_app. right. apply PathEncComplete.mem_edge_In. exact M. }
+        congruence. }
+      rewrite (lookup_flow EH f e HeH), <- (G_flow e HeE Hig').
+      rewrite <- (sum_over_survivors (fun i => (w i * PathEncComplete.indq (mem_edge e (pairs (P i))))%Q)).
+      + apply sumq_ext. intros j Hj. destruct (idx_surv j Hj) as [Hi Hsv]. unfold w', P'. set (i := idx j) in *.
+        destruct (HE e HeE) as [H1 H2].
+        assert (Es : fst e <> s) by (intros X; rewrite X in H1; contradiction).
+        assert (Et : snd e <> t) by (intros X; rewrite X in H2; contradiction).
+        assert (Eqm : mem_edge e (pairs (s :: Qp i ++ [t])) = mem_edge e (pairs (P i))).
+        { apply eq_true_iff_eq. rewrite !PathEncComplete.mem_edge_In. rewrite (in_pairs_st s t (Qp i) e Es Et (Qp_nonempty i Hsv)).
+          symmetry. apply (on_path_iff i e Hi HeH). }
+        rewrite Eqm. destruct (mem_edge e (pairs (P i))) eqn:M; cbn [PathEncComplete.indq]; [|destruct (live i); ring].
+        assert (L : live i = true).
+        { unfold live. apply existsb_exists. exists e. split; [|rewrite Hig'; reflexivity].
+          apply (on_path_iff i e Hi HeH). apply PathEncComplete.mem_edge_In. exact M. }
+        rewrite L. reflexivity.
+      + intros i Hi Hsv. assert (M : mem_edge e (pairs (P i)) = false).
+        { destruct (mem_edge e (pairs (P i))) eqn:M; [|reflexivity]. exfalso. apply PathEncComplete.mem_edge_In in M.
+          exact (not_surviving_no_edge i e Hi Hsv HeH M). }
+        rewrite M. cbn [PathEncComplete.indq]. ring.
+  Qed.
+End SubgraphBound.
+
+(* ---------------------------------------------------------------------------------------------- *)
+(* packaged statements                                                                            *)
+Definition restrict_ignore (VH : list node) (ign : list edge) : list edge :=
+  filter (fun e => memn (fst e) VH && memn (snd e) VH) ign.
+
+(* the premises about the caller's DAG and its topological order *)
+Definition dag_with_order (V : list node) (E : list edge) (s t : node) (topo : list node) : Prop :=
+  ~ In s V /\ ~ In t V /\ s <> t /\ (forall e, In e E -> In (fst e) V /\ In (snd e) V) /\
+  (forall u v, In (u, v) E -> posn topo u < posn topo v) /\ (forall v, In v V <-> In v topo).
+
+Theorem subgraph_restriction (V : list node) (E : list edge) (s t : node) (f : edge -> Z) (ign : list edge)
+        (topo : list node) (left right k : nat) (P : N -> list node) (w : N -> Q) :
+  dag_with_order V E s t topo ->
+  decomposition (sg_inst V E s t f ign k) P w ->
+  let VH := fst (window_subgraph topo left right E) in let EH := snd (window_subgraph topo left right E) in
+  exists (kH : nat) (PH : N -> list node) (wH : N -> Q),
+    kH <= k /\ decomposition (sg_inst VH EH s t f (restrict_ignore VH ign) kH) PH wH.
+Proof.
+  intros (Hs & Ht & Hst & HE & Htopo & Hperm) HD VH EH.
+  exists (k' topo left right k P), (P' s t topo left right k P), (w' ign topo left right k P w).
+  destruct (subgraph_decomposition V E s t f ign topo left right k P w Hs Ht Hst HE Htopo
+              (fun v Hv => proj1 (Hperm v) Hv) (fun v Hv => proj2 (Hperm v) Hv) HD) as [D L].
+  split; [exact L|exact D].
+Qed.
+
+(* the lower bound is sound: if the window subgraph has no decomposition into fewer than lbH paths, neither has G *)
+Theorem subgraph_scanning_bound (V : list node) (E : list edge) (s t : node) (f : edge -> Z) (ign : list edge)
+        (topo : list node) (left right k lbH : nat) (P : N -> list node) (w : N -> Q) :
+  dag_with_order V E s t topo ->
+  let VH := fst (window_subgraph topo left right E) in let EH := snd (window_subgraph topo left right E) in
+  (forall j, j < lbH -> ~ exists PH wH, decomposition (sg_inst VH EH s t f (restrict_ignore VH ign) j) PH wH) ->
+  decomposition (sg_inst V E s t f ign k) P w -> lbH <= k.
+Proof.
+  intros HG VH EH Hmin HD.
+  destruct (subgraph_restriction V E s t f ign topo left right k P w HG HD) as (kH & PH & wH & Hle & DH).
+  destruct (Nat.le_gt_cases lbH kH) as [L|L]; [lia|]. exfalso. apply (Hmin kH L). exists PH, wH. exact DH.
+Qed.
+
+Lemma sg_inst_nil V E s t f k : sg_inst V E s t f [] k = e2e_inst V E s t f k.
+Proof. unfold sg_inst, e2e_inst. rewrite app_nil_r. reflexivity. Qed.
+
+(* the same for the instance without an ignore list (EndToEnd2.e2e_inst) *)
+Theorem subgraph_scanning_bound_e2e (V : list node) (E : list edge) (s t : node) (f : edge -> Z)
+        (topo : list node) (left right k lbH : nat) (P : N -> list node) (w : N -> Q) :
+  dag_with_order V E s t topo ->
+  let VH := fst (window_subgraph topo left right E) in let EH := snd (window_subgraph topo left right E) in
+  (forall j, j < lbH -> ~ exists PH wH, decomposition (e2e_inst VH EH s t f j) PH wH) ->
+  decomposition (e2e_inst V E s t f k) P w -> lbH <= k.
+Proof.
+  intros HG VH EH Hmin HD. rewrite <- sg_inst_nil in HD.
+  apply (subgraph_scanning_bound V E s t f [] topo left right k lbH P w HG); [|exact HD].
+  intros j Hj. change (restrict_ignore (fst (window_subgraph topo left right E)) []) with (@nil edge). rewrite sg_inst_nil. apply Hmin. exact Hj.
+Qed.
+
+(* ---- a concrete instance: 0 -> 1 -> 2 -> 3 and 0 -> 2, window {1} ---- *)
+Definition sbV : list node := [0; 1; 2; 3]%N.
+Definition sbE : list edge := [(0, 1); (1, 2); (2, 3); (0, 2)]%N.
+Definition sbf (e : edge) : Z := if edge_eqb e (2, 3)%N then 2%Z else 1%Z.
+Definition sbP (i : N) : list node := if (i =? 0)%N then [10; 0; 1; 2; 3; 11]%N else [10; 0; 2; 3; 11]%N.
+Definition sbw (_ : N) : Q := 1%Q.
+
+Lemma sb_dag : dag_with_order sbV sbE 10%N 11%N sbV.
+Proof.
+  split; [cbn; intuition discriminate|]. split; [cbn; intuition discriminate|]. split; [discriminate|]. split.
+  - intros e He. cbn in He. intuition (subst; cbn; tauto).
+  - split; [|tauto]. intros u v He. cbn in He. intuition (try discriminate); match goal with H : (_, _) = (_, _) |- _ => injection H as <- <- end; vm_compute; lia.
+Qed.
+
+Lemma sb_decomposition : decomposition (sg_inst sbV sbE 10%N 11%N sbf [] 2) sbP sbw.
+Proof.
+  split; [|split].
+  - intros i Hi. cbn in Hi. destruct Hi as [<-|[<-|[]]]; (split; [reflexivity|]; split; [reflexivity|]; split;
+      [repeat constructor; cbn; intuition discriminate|intros e He; vm_compute in He; vm_compute; tauto]).
+  - intros i _. split; [vm_compute; split; discriminate|]. intros _. exists 1%Z. reflexivity.
+  - intros e He Hig. vm_compute in He.
+    destruct He as [<-|[<-|[<-|[<-|He]]]]; try (vm_compute; reflexivity);
+      repeat (destruct He as [<-|He]; [vm_compute in Hig; discriminate Hig|]); destruct He.
+Qed.
+
+Example sb_window : window_subgraph sbV 1 2 sbE = ([1; 0; 2]%N, [(0, 1); (1, 2)]%N) /\ k' sbV 1 2 2 sbP = 1.
+Proof. split; vm_compute; reflexivity. Qed.
